@@ -8,7 +8,7 @@ structured delivery history which is compared entry by entry, three-valued where
 import datetime as dt
 
 from ..kernel import Outcome, register, weighted
-from ..models.dispatch_model import DispatchModel, MWatcher, ModelReject, eq3
+from ..models.dispatch_model import DispatchModel, MWatcher, ModelReject, eq3, _Inheriting
 
 PN = ('p0', 'p1', 'p2', 'p3')
 MAX_CALLS = 150
@@ -212,6 +212,8 @@ class Host:
             eng.set(o, PN[act['p'] % self.cfg['n_params']], self.fresh_value(w.wid))
         elif a == 'update':
             eng.update(o, [(PN[p % self.cfg['n_params']], self.fresh_value(w.wid)) for p in act['ps']])
+        elif a == 'trigger' and self.cfg.get('dset'):
+            eng.set(o, PN[act['ps'][0] % self.cfg['n_params']], self.fresh_value(w.wid))
         elif a == 'trigger':
             eng.trigger(o, [PN[p % self.cfg['n_params']] for p in act['ps']])
         elif a == 'unwatch':
@@ -303,6 +305,13 @@ class Host:
         k = op['op']
         o = self.objs[op.get('o', 0) % len(self.objs)]
         np_ = cfg['n_params']
+        if cfg.get('dset') and k in ('trigger', 'trigger_bad', 'event'):
+            # (in these runs) the default of the instances' class is assigned instead: instances that never set the parameter
+            # show the new value from now on, silently; their next assignment is judged against it
+            self.dcount = getattr(self, 'dcount', 0) + 1
+            ps = [p for p in op.get('ps', []) if p != 'e'] or [0]
+            eng.dset(PN[ps[0] % np_], self.vals.mk({'k': 'int', 'x': 100 + self.dcount} if self.dcount % 3 else {'k': 'none'}))
+            return
         if k == 'set':
             eng.set(o, PN[op['p'] % np_], self.vals.mk(op['v']))
         elif k == 'same':
@@ -372,7 +381,16 @@ class ModelEngine:
             self.m.add_obj(oid, vals, event_params=('e',))
         if 'KS' in oids:
             self.m.share_watchers('KS', 'K')
+        if cfg.get('dset'):
+            # the instances hold no value of their own to begin with: they show the defaults of their class, which change
+            self.dvals = {n: None for n in PN[:cfg['n_params']]}
+            self.dvals['e'] = False
+            for i in range(cfg['n_inst']):
+                self.m.objs[f"I{i}"].values = _Inheriting(self.dvals)
         return oids
+
+    def dset(self, name, v):
+        self.dvals[name] = v
 
     def stop(self):
         return self.m.ambiguous is not None
@@ -572,6 +590,9 @@ class RealEngine:
     def set(self, oid, name, v):
         setattr(self.objs[oid], name, v)
 
+    def dset(self, name, v):
+        setattr(self.D, name, v)        # the class of the instances (nobody watches it)
+
     def slotset(self, oid, name, slot, v):
         setattr(self.objs[oid].param[name], slot, v)
 
@@ -770,6 +791,7 @@ class DispatchWorld:
             'cls_obj': rng.random() < 0.25,
             'cls_sub': rng.random() < 0.5,
             'ks_early': rng.random() < 0.5,
+            'dset': rng.random() < 0.2,
             'domain': rng.choice(list(DOMAINS)),
             'p_queued': rng.choice([0.0, 0.15, 0.4]),
             'p_script': rng.choice([0.0, 0.3, 0.6]),
